@@ -1,3 +1,226 @@
 package main
 
-func (g *gen) stream5(name string, n int) bool { return false }
+import (
+	"crypto/hmac"
+	"crypto/md5"
+	"crypto/sha1"
+	"encoding/binary"
+	"fmt"
+	"hash/crc32"
+)
+
+func (g *gen) stream5(name string, n int) bool {
+	switch name {
+	case "integrity":
+		g.integrity(n)
+	case "fingerprint":
+		g.fingerprint(n)
+	default:
+		return g.stream6(name, n)
+	}
+	return true
+}
+
+func setHdrLen(b []byte, n int) { binary.BigEndian.PutUint16(b[2:4], uint16(n)) }
+
+// signed message built without the library: attributes before, MESSAGE-INTEGRITY (crypto/hmac), attributes after
+func (g *gen) signedMsg(key []byte, nBefore, nAfter int) ([]byte, int) {
+	before := make([]wattr, nBefore)
+	for i := range before {
+		l := g.r.intn(24)
+		before[i] = wattr{typ: g.r.pick([]int{0x0006, 0x0014, 0x0015, 0x8022, 0x7777, 0x0020}), val: g.r.bytes(l), pad: make([]byte, pad4(l))}
+	}
+	tid := g.r.bytes(12)
+	typ := uint16(g.r.intn(0x3FFF))
+	pre := wire(typ, tid, before)
+	setHdrLen(pre, len(pre)-20+24)
+	mac := hmac.New(sha1.New, key)
+	mac.Write(pre)
+	tag := mac.Sum(nil)
+	as := append(before, wattr{typ: 0x0008, val: tag})
+	miOff := len(pre)
+	for i := 0; i < nAfter; i++ {
+		l := g.r.intn(12)
+		as = append(as, wattr{typ: g.r.pick([]int{0x8022, 0x7777, 0x8028, 0x0008}), val: g.r.bytes(l), pad: g.r.bytes(pad4(l))})
+	}
+	return wire(typ, tid, as), miOff
+}
+
+func (g *gen) integrity(n int) {
+	for i := 0; i < n; i++ {
+		g.caseMark("integrity", i)
+		key := g.r.bytes(g.keyLen())
+		if i%7 == 3 { // long-term key: MD5(user:realm:pass), computed here with crypto/md5 and by both sides
+			u, r, p := g.r.bytes(g.r.intn(12)), g.r.bytes(g.r.intn(12)), g.r.bytes(g.r.intn(12))
+			for _, x := range [][]byte{u, r, p} {
+				for j := range x {
+					x[j] = 'a' + x[j]%26
+				}
+			}
+			g.emit("LTKEY %s %s %s", showHex(u), showHex(r), showHex(p))
+			h := md5.Sum([]byte(string(u) + ":" + string(r) + ":" + string(p)))
+			key = h[:]
+		}
+		nb, na := g.r.intn(9), g.r.intn(5)
+		b, miOff := g.signedMsg(key, nb, na)
+		g.emit("RAWDEC 0 %d %d %s", []int{0, 1, 19, 20, 64}[g.r.intn(5)], g.r.intn(256), showHex(b))
+		g.emit("CHECK 0 mi %s", showHex(key))
+		g.emit("DUMP 0")
+		// wrong keys
+		wk := append([]byte{}, key...)
+		if len(wk) > 0 {
+			wk[g.r.intn(len(wk))] ^= 1 << uint(g.r.intn(8))
+		} else {
+			wk = []byte{0}
+		}
+		g.emit("CHECK 0 mi %s", showHex(wk))
+		g.emit("CHECK 0 mi %s", showHex(append(key, 0)))
+		// the library signs the same content: compare its MAC with the independent one
+		if na == 0 {
+			g.emit("NEW 1 %d %d", g.r.intn(400), g.r.intn(256))
+			g.emit("RAWDEC 2 0 0 %s", showHex(b[:miOff]))
+		}
+		// corrupted copies: every bit of a short message, random bits of longer ones
+		flips := 24
+		exhaustive := len(b) <= 64 && i%4 == 0
+		if exhaustive {
+			flips = len(b) * 8
+		}
+		for f := 0; f < flips; f++ {
+			bit := f
+			if !exhaustive {
+				bit = g.r.intn(len(b) * 8)
+			}
+			c := append([]byte{}, b...)
+			c[bit/8] ^= 1 << uint(bit%8)
+			if bit/8 < miOff+24 && bit/8 != 2 && bit/8 != 3 {
+				g.emit("# expect-reject covered byte or MAC changed")
+			} else {
+				g.emit("# flip outside the covered span")
+			}
+			g.emit("RAWDEC 1 0 0 %s", showHex(c))
+			g.emit("CHECK 1 mi %s", showHex(key))
+		}
+		// wrong / short / long MAC values
+		for _, l := range []int{0, 1, 19, 21, 24, 40} {
+			c := append([]byte{}, b[:miOff]...)
+			c = append(c, 0, 8, 0, byte(l))
+			c = append(c, g.r.bytes(l+pad4(l))...)
+			setHdrLen(c, len(c)-20)
+			g.emit("RAWDEC 1 %d 0 %s", g.r.intn(3), showHex(c))
+			g.emit("CHECK 1 mi %s", showHex(key))
+			g.emit("DUMP 1")
+		}
+		// library signing on top of arbitrary content, then verification after re-decoding (and after extension)
+		tot := 0
+		g.emit("NEW 2 %d %d", g.r.intn(600), g.r.intn(256))
+		g.emit("BUILD 2 type:%d:%d+tid:%s+%s", g.r.intn(4096), g.r.intn(4), showHex(g.r.bytes(12)), g.plainSetters(&tot, 4))
+		g.emit("SET 2 mi:%s", showHex(key))
+		for k := g.r.intn(3); k > 0; k-- {
+			g.emit("ADD 2 %d %s", g.r.pick([]int{0x8022, 0x7777}), showHex(g.r.bytes(g.r.intn(10))))
+		}
+		if g.r.chance(1, 2) {
+			g.emit("SET 2 fp")
+			g.emit("SET 2 mi:%s", showHex(key)) // refused after FINGERPRINT
+		}
+		g.emit("CLONE 2 3")
+		g.emit("CHECK 3 mi %s", showHex(key))
+		g.emit("CHECK 3 mi %s", showHex(wk))
+	}
+}
+
+// setters that add neither MESSAGE-INTEGRITY nor FINGERPRINT
+func (g *gen) plainSetters(total *int, max int) string {
+	s := ""
+	for i := g.r.intn(max + 1); i > 0; i-- {
+		t := g.setter(total)
+		if t == "" || t == "fp" || len(t) > 2 && t[:3] == "mi:" {
+			continue
+		}
+		if s != "" {
+			s += "+"
+		}
+		s += t
+	}
+	if s == "" {
+		return "raw:30583:-"
+	}
+	return s
+}
+
+func fpValue(b []byte) uint32 { return crc32.ChecksumIEEE(b) ^ 0x5354554e }
+
+func (g *gen) fingerprint(n int) {
+	for i := 0; i < n; i++ {
+		g.caseMark("fingerprint", i)
+		// the CRC itself against hash/crc32
+		g.emit("FPVAL %s", showHex(g.r.bytes(g.r.intn(80))))
+		if i == 0 {
+			g.emit("FPVAL 313233343536373839")
+		}
+		// fingerprinted message built without the library (optionally after a MESSAGE-INTEGRITY attribute)
+		nb := g.r.intn(5)
+		as := make([]wattr, nb)
+		for j := range as {
+			l := g.r.intn(16)
+			as[j] = wattr{typ: g.r.pick([]int{0x0006, 0x8022, 0x7777, 0x0008}), val: g.r.bytes(l), pad: make([]byte, pad4(l))}
+		}
+		tid := g.r.bytes(12)
+		typ := uint16(g.r.intn(0x3FFF))
+		pre := wire(typ, tid, as)
+		setHdrLen(pre, len(pre)-20+8)
+		v := make([]byte, 4)
+		binary.BigEndian.PutUint32(v, fpValue(pre))
+		b := wire(typ, tid, append(as, wattr{typ: 0x8028, val: v}))
+		g.emit("RAWDEC 0 %d %d %s", g.r.intn(3), g.r.intn(256), showHex(b))
+		g.emit("CHECK 0 fp")
+		// every single bit (short messages), random single bits and bursts of <= 32 bits in CRC bit order otherwise
+		nbits := len(b) * 8
+		trials := 40
+		exhaustive := len(b) <= 72 && i%3 == 0
+		if exhaustive {
+			trials = nbits
+		}
+		for f := 0; f < trials; f++ {
+			c := append([]byte{}, b...)
+			if exhaustive || f%2 == 0 {
+				bit := f
+				if !exhaustive {
+					bit = g.r.intn(nbits)
+				}
+				c[bit/8] ^= 1 << uint(bit%8)
+			} else {
+				start := g.r.intn(nbits)
+				w := 1 + g.r.intn(32)
+				c[start/8] ^= 1 << uint(start%8) // first bit of the window always flipped
+				for k := 1; k < w && start+k < nbits; k++ {
+					if g.r.chance(1, 2) {
+						c[(start+k)/8] ^= 1 << uint((start+k)%8)
+					}
+				}
+			}
+			g.emit("# expect-reject-fp corrupted fingerprinted message")
+			g.emit("RAWDEC 1 0 0 %s", showHex(c))
+			g.emit("CHECK 1 fp")
+		}
+		// FINGERPRINT attributes of any length and position
+		for _, l := range []int{0, 1, 3, 4, 5, 8} {
+			c := wire(typ, tid, append([]wattr{{typ: 0x8028, val: g.r.bytes(l), pad: make([]byte, pad4(l))}}, as...))
+			g.emit("RAWDEC 1 0 0 %s", showHex(c))
+			g.emit("CHECK 1 fp")
+		}
+		// library: add FINGERPRINT on top of arbitrary content (with and without MESSAGE-INTEGRITY before)
+		tot := 0
+		g.emit("NEW 2 %d %d", g.r.intn(600), g.r.intn(256))
+		g.emit("BUILD 2 type:%d:%d+tid:%s+%s", g.r.intn(4096), g.r.intn(4), showHex(g.r.bytes(12)), g.plainSetters(&tot, 4))
+		if g.r.chance(1, 2) {
+			g.emit("SET 2 mi:%s", showHex(g.r.bytes(g.r.intn(40))))
+		}
+		g.emit("SET 2 fp")
+		g.emit("CHECK 2 fp")
+		g.emit("CLONE 2 3")
+		g.emit("CHECK 3 fp")
+	}
+}
+
+var _ = fmt.Sprint
